@@ -243,6 +243,16 @@ def run_shard(ctx):
         gd, pad = gg.embed_wide(core, rng, rng.randint(10, 14))
         classes["wide:" + cls] = classes.get("wide:" + cls, 0) + 1
         run_case(ctx, gd, doms, out, cond, rng, wrapper=(0, 1)[i % 2], cards={w: 1 for w in pad})
+    # deeply nested districts: IDENTIFY has to peel the district d+1 times before it reaches Q[{C}] (C17's family)
+    from .c17 import nested_district
+
+    for d in ((2, 3) + ((4,) if ctx.mine(9) else ())) if ctx.shard % 4 == 1 or ctx.mine(9) else ():
+        gd = nested_district(d)
+        a_ = [f"A{k}" for k in range(1, d + 1)]
+        out = [["C", [[x, False] for x in a_], rng.random() < 0.5]]
+        doms = [{"population": "π1", "transport": [f"Z{d}"], "policy": []}]
+        classes[f"nested_district_{d}"] = classes.get(f"nested_district_{d}", 0) + 1
+        run_case(ctx, gd, doms, out, [], rng, wrapper=0)
     ctx.extras["event_classes"] = classes
 
 
